@@ -33,7 +33,15 @@ def sources(draw):
         name, text, applied = draw(corpus.valid_sources(max_lines=60))
         return {"origin": name, "text": text, "files": None}
     prog = draw(proggen.programs(max_blocks=5))
-    return {"origin": "generated", "text": prog.files()["main_mod.py"], "files": prog.files()}
+    files = prog.files()
+    text = files["main_mod.py"]
+    if draw(st.booleans()):
+        # the whole program inside a regular package below the project root: the buffer's directory then reaches the module
+        # search path only through the project's "ancestor directories of the buffer" rule
+        files = {"pkg_dir/" + k: v for k, v in files.items()}
+        files["pkg_dir/__init__.py"] = ""
+        return {"origin": "generated-in-package", "text": text, "files": files, "main": "pkg_dir/main_mod.py"}
+    return {"origin": "generated", "text": text, "files": files}
 
 
 @st.composite
@@ -101,7 +109,7 @@ def run_cross(ctx, case):
     project = None
     if case["src"]["files"]:
         tracer.write_project(root / "proj", case["src"]["files"])
-        path = str(root / "proj" / "main_mod.py")
+        path = str(root / "proj" / case["src"].get("main", "main_mod.py"))
         project = str(root / "proj")
     queries = []
     for i, k in enumerate(case["picks"]):
@@ -162,7 +170,7 @@ def run_seq(ctx, case):
     path, project = None, None
     if case["src"]["files"]:
         tracer.write_project(root / "proj", case["src"]["files"])
-        path = str(root / "proj" / "main_mod.py")
+        path = str(root / "proj" / case["src"].get("main", "main_mod.py"))
         project = jedi.Project(str(root / "proj"))
     nlines = len(corpus.split_lines(text))
 
@@ -273,7 +281,7 @@ class HistoryRunner:
         self.path, self.project = None, None
         if src["files"]:
             tracer.write_project(root / "proj", src["files"])
-            self.path = str(root / "proj" / "main_mod.py")
+            self.path = str(root / "proj" / src.get("main", "main_mod.py"))
             self.project = jedi.Project(str(root / "proj"))
         self.nlines = len(corpus.split_lines(self.text))
         self.script = boot.fresh_script(self.text, path=self.path, project=self.project)
